@@ -21,8 +21,12 @@ REPS_QUICK = ["<a>", "<A N>", "</a>", "<b/>", "<a x/>", "k v", "k", "k v", "K $$
               "# c", "", "%import p", "%import Q.r", "%define x y", "%include f", "j <v>", "m x$$",
               "<b>", "</b>", "<a/ >", "</a/>", "<a n/ >",
               # characters at which str.splitlines() - but neither the parser nor a '\n'.join - ends a line
-              "k a\x0cb", "m x\u2028y z"]
-REPS_MORE = ["k # v", "k %v", "<a/ n/ >", "k $$$$", "%import p$$", "é É", "<é É>", "</é>", "k  v   w"]
+              "k a\x0cb", "m x\u2028y z",
+              # two literal dollars side by side; a key that begins with U+FEFF (not white space: an ordinary
+              # character, on whatever line it stands)
+              "k $$$$", "\ufeffq v"]
+REPS_MORE = ["k # v", "k %v", "<a/ n/ >", "%import p$$$$", "%import p$$", "é É", "<é É>", "</é>", "k  v   w",
+             "\ufeff<a>", "\ufeff# c", "%import \ufeffp"]
 
 
 def round_trip(text):
